@@ -43,6 +43,7 @@ def model_checks(ctx):
            ("Balancer_nosignal_inv.cfg", "invariant:NoStuck", "timer callback without signal: sender sleeps past its deadline"),
            ("Balancer_skip.cfg", "invariant:InOrderNoLoss", "skip after a write error loses an accepted packet"),
            ("Balancer_reportloss.cfg", "invariant:NoReportLost", "failed report write loses the amount"),
+           ("Balancer_reportrace.cfg", "invariant:NoReportLost", "report as Load / write / Store(0): a drop during the report write is erased"),
            ("Balancer_live_nodeadline.cfg", "property", "write deadline never armed: a stalled upstream blocks the sender for ever")]
     demo = {}
     for cfg, want, name in (neg if th else neg[:1] + neg[2:3]):
@@ -111,7 +112,7 @@ def run(ctx):
     # ---- I->S: the real egress
     nbeh = 60 if th else 10
     behs = behaviours(ctx, nbeh)
-    env = {"VERIF_NSCN": 130 if th else 20, "VERIF_NLSTALL": 3 if th else 1, "VERIF_NOVERDUE": 4 if th else 2, "VERIF_NNEWEGRESS": 2 if th else 1,
+    env = {"VERIF_NSCN": 130 if th else 20, "VERIF_NLSTALL": 3 if th else 1, "VERIF_NOVERDUE": 4 if th else 2, "VERIF_NREPORTRACE": 6 if th else 2, "VERIF_NNEWEGRESS": 2 if th else 1,
            "VERIF_PAR": 8 if th else 6, "VERIF_NFILES": 8 if th else 3}
     res, out, rc = ctx.go_test("internal/balancer", "TestVerifC31", inp=behs, env=env, timeout=1500 if th else 600)
     res = ctx.need_result(res, out, rc, "TestVerifC31")
@@ -119,7 +120,7 @@ def run(ctx):
     if consts.get("bufferLen") != 200 or consts.get("swapThreshold") != 40 or consts.get("pktHeadLen") != 4:
         raise Infra("code constants changed (%s): specs/BalancerTrace.cfg must be re-instantiated" %
                     {k: consts.get(k) for k in ("bufferLen", "swapThreshold", "pktHeadLen")})
-    total = env["VERIF_NSCN"] + env["VERIF_NLSTALL"] + env["VERIF_NOVERDUE"] + env["VERIF_NNEWEGRESS"] + len(behs)
+    total = env["VERIF_NSCN"] + env["VERIF_NLSTALL"] + env["VERIF_NOVERDUE"] + env["VERIF_NREPORTRACE"] + env["VERIF_NNEWEGRESS"] + len(behs)
     ninfra = res.get("counters", {}).get("infra", 0)
     if ninfra:
         ctx.log("scenarios without a usable trace: %d of %d: %s" % (ninfra, total, (res.get("notes") or [])[:5]))
